@@ -56,9 +56,10 @@ def prop(case, rec):
     for p, c in case['entries']:
         pws += [p] * c
     path = os.path.join(_dir(), 'train.txt')
-    trainer.write_training_file(path, pws, enc)
+    pc = trainer.write_list(path, case['entries'], enc, case.get('spelling', 'plain'))
+    rec.cls('list_spelling_' + case.get('spelling', 'plain'))
     out = os.path.join(_dir(), 'R')
-    r = guard(case, trainer.train, path, out, encoding=enc, coverage=0.5, ngram=case['ngram'], alphabet_size=case['alphabet_size'])
+    r = guard(case, trainer.train, path, out, encoding=enc, coverage=0.5, ngram=case['ngram'], alphabet_size=case['alphabet_size'], prefixcount=pc)
     if not r.ok:
         if r.error is not None and not isinstance(r.error, ZeroDivisionError):
             raise Violation('crash:' + type(r.error).__name__, f'run_trainer raised {r.error!r}', case)
@@ -153,7 +154,7 @@ def cases(draw):
     if not entries:
         entries = [['abc', 2], ['abca', 1]]
     return {'entries': entries, 'encoding': enc, 'ngram': draw(st.sampled_from([2, 2, 3, 4, 5])),
-            'alphabet_size': draw(st.sampled_from([100, 10, 5, 3]))}
+            'alphabet_size': draw(st.sampled_from([100, 10, 5, 3])), 'spelling': draw(st.sampled_from(trainer.SPELLINGS))}
 
 
 def run_main(rec, seed, shard, nshards, tier):
